@@ -35,17 +35,22 @@ func zzNewAt(initial, max uint32, s uint64) *MPSC[int] {
 	return q
 }
 
-var zzCaps = [][2]uint32{{2, 4}, {2, 8}, {4, 4}, {4, 16}}
+var zzCaps = [][2]uint32{{2, 4}, {2, 8}, {4, 4}, {4, 16}, {4, 5}, {2, 6}, {3, 12}, {4, 24}}
 
 func ZZ_C16_Seq() {
 	cp := zzCaps[vParam("caps")]
 	s := vU64("startIndex")
 	vAssume(s < 1<<61)
 	q := zzNewAt(cp[0], cp[1], s)
-	capacity := q.capacity()
+	// documented bound: the maximum capacity rounded up to a power of two (computed independently of the queue)
+	capacity := 1
+	for uint32(capacity) < cp[1] {
+		capacity <<= 1
+	}
+	vAssert(q.capacity() == capacity, "c16.seq.capacity_is_max_rounded_up")
 	steps := vParam("steps")
 	var model []int
-	var elems [64]int
+	var elems [128]int
 	next := 0
 	for i := 0; i < steps; i++ {
 		if vChoice("op", 2) == 0 {
